@@ -241,7 +241,75 @@ def check_state(case):
     return res
 
 
+# ------------------------------------------------------------------ wide dynamic range (per-bin RELATIVE accuracy)
+
+
+def ts_strata(tier):
+    ns = {1: [9, 16], 2: [8, 9], 3: [6]} if tier == "quick" else {1: [7, 9, 16, 33], 2: [7, 8, 9, 12], 3: [5, 6, 8]}
+    return [dict(id="D%d-N%d" % (D, N), D=D, N=N) for D in (1, 2, 3) for N in ns[D]]
+
+
+def ts_strategy(stratum, tier):
+    D, N = stratum["D"], stratum["N"]
+    kmax = (N - 1) // 2
+    kvec = st.lists(st.integers(-kmax, kmax), min_size=D, max_size=D)
+    return st.fixed_dictionaries(
+        dict(D=st.just(D), N=st.just(N), k1=kvec, k2=kvec, a1=gens.nonzero_coef(0.5, 3.0), ratio_exp=st.floats(2.0, 10.0).map(lambda x: float("%.3g" % x)),
+             phi=st.floats(0, 6.28).map(lambda x: float("%.3g" % x)), chan_exp=st.floats(0.0, 9.0).map(lambda x: float("%.3g" % x)))
+    )  # fmt: skip
+
+
+def ts_check(case):
+    D, N, k1, k2 = case["D"], case["N"], case["k1"], case["k2"]
+    res = R()
+    b1, b2 = bin_of(k1), bin_of(k2)
+    sc1 = all((2 * x) % N == 0 for x in k1)
+    sc2 = all((2 * x) % N == 0 for x in k2)
+    key = "C17:dynamic_range:D%d" % D
+    if b1 == b2 or b1 > N // 2 or b2 > N // 2 or sc1 or sc2:
+        res.tag("same_bin_or_outside_skipped")
+        return res
+    res.nontrivial = True
+    a1 = case["a1"]
+    a2 = a1 * 10.0 ** (-case["ratio_exp"])
+    res.tag("dynamic_range", "D%d" % D, "ratio=1e-%d" % int(case["ratio_exp"]))
+    J = orc.own_grid(D, N, float(N))
+    th1 = sum(2 * math.pi * k1[d] / N * J[d] for d in range(D))
+    th2 = case["phi"] + sum(2 * math.pi * k2[d] / N * J[d] for d in range(D))
+    f = a1 * np.cos(th1) + a2 * np.cos(th2)
+    cs = 10.0 ** (-case["chan_exp"])
+    u = np.stack([f, cs * f[::-1].copy() if D == 1 else cs * np.swapaxes(f, 0, 1)])  # second channel: much weaker
+    counts, _ = bin_counts(D, N)
+    eps = 2.2e-16
+    for power, binning in OPTS:
+        ok, sp = res.lib("get_spectrum", get_spectrum, jnp.asarray(u), power=power, radial_binning=binning, key=key)
+        if not ok:
+            continue
+        sp = np.asarray(sp)
+        for ch, amp_scale in ((0, 1.0), (1, cs)):
+            for b, a in ((b1, a1 * amp_scale), (b2, a2 * amp_scale)):
+                want = a * a / 4 if power else abs(a)
+                if binning == "average" and D >= 2:
+                    want = want / counts[b]
+                # rounding floor of the transform of THIS channel: eps * (largest amplitude of the channel) * N^(D/2)
+                fl = 50 * eps * abs(a1) * amp_scale * N ** (D / 2)
+                floor = (2 * fl * abs(a) + fl * fl) if power else fl
+                if binning == "average" and D >= 2:
+                    floor = floor / counts[b]
+                if want < 100 * floor:
+                    continue
+                res.claim(
+                    "bin_value_relative:%s:%s" % ("power" if power else "amplitude", binning),
+                    abs(float(sp[ch, b]) - want),
+                    1e-6 * want + floor,
+                    key=key + ":" + ("power" if power else "amplitude"),
+                    msg="channel %d bin %d amplitude %.3g next to %.3g: got %.6g want %.6g" % (ch, b, a, a1, sp[ch, b], want),
+                )
+    return res
+
+
 SUBS = [
     Sub("single_mode", check_mode, strata=mode_strata, strategy=strat_mode, frames=frames_mode, n=(2, 4), exhaustive=True),
+    Sub("dynamic_range", ts_check, strata=ts_strata, strategy=ts_strategy, n=(20, 120)),
     Sub("random_state", check_state, strata=state_strata, strategy=strat_state, n=(10, 60), reps=(1, 2)),
 ]
